@@ -136,6 +136,8 @@ pub struct Ctl {
     pub calls: u64,
     pub inject: Option<u64>,
     pub next_id: u32,
+    /// the next instrumented source iterator understates its `size_hint` as `(0, Some(0))`
+    pub lie_hint: bool,
     pub events: Vec<Ev>,
     /// harness-owned drops / creations: no tick, no event
     pub quiet: bool,
@@ -153,6 +155,7 @@ impl Ctl {
             calls: 0,
             inject: None,
             next_id: 100000,
+            lie_hint: false,
             events: Vec::with_capacity(1 << 14),
             quiet: false,
             mode: EqMode::Lawful,
